@@ -4,15 +4,20 @@ EXTENDS NameTable, TLC, Json
 CONSTANT MaxChain
 VARIABLES chain, term
 Terms == {"int32", "struct", "seq", "enum", "custom", "dict", "missing"}
-Init == /\ \E n \in 1..MaxChain : chain \in [1..n -> [attr : BOOLEAN, next : 0..n]]
+\* every alias lives in module M or in module N (two files); both modules declare S, E and C.  An alias names the next alias
+\* bare when it is in its own module and '::X::Lj' otherwise, and names the terminal bare: each link is resolved in the
+\* module of the alias that wrote it, so the terminal is the one of the last link's module.
+Init == /\ \E n \in 1..MaxChain : chain \in [1..n -> [attr : BOOLEAN, next : 0..n, mod : {"M", "N"}]]
         /\ term \in Terms
 Next == UNCHANGED <<chain, term>>
 \* what the compiler must say about the field  f: [x::a0] L1?
 R == AliasResolve(chain, 1)
 \* every alias is resolved where it is defined: the codes that must appear
 Codes == ({AliasResolve(chain, chain[s].next).res : s \in {x \in 1..Len(chain) : chain[x].next # 0}} \cup {R.res}) \ {"terminal"}
+RECURSIVE LastLink(_, _)
+LastLink(cur, fuel) == IF fuel = 0 \/ chain[cur].next = 0 THEN cur ELSE LastLink(chain[cur].next, fuel - 1)
 Expect == IF Codes = {} /\ term # "missing"
-          THEN [res |-> "bound", attrs |-> R.attrs, term |-> term]
+          THEN [res |-> "bound", attrs |-> R.attrs, term |-> term, tmod |-> chain[LastLink(1, Len(chain))].mod]
           ELSE [res |-> "rejected", codes |-> Codes \cup (IF term = "missing" \/ Codes # {} THEN {"E033"} ELSE {})]
 Transparent == AliasTransparent(chain)
 Emit == PrintT(<<"CASE", ToJson([chain |-> chain, term |-> term, expect |-> Expect])>>)
